@@ -69,7 +69,7 @@ class IntShim(metaclass=_IntMeta):
         if isinstance(x, SymInt):
             return x
         if isinstance(x, SymBool):
-            return SymInt.mk(*SymInt.coerce(x))
+            return SymInt.lift(x)
         if isinstance(x, SymFloat):
             return x.__int__()
         if isinstance(x, SymBytes):
@@ -106,14 +106,14 @@ class IntShim(metaclass=_IntMeta):
         lo = 0
         for x in els:
             lo = (lo << 8) | (x if isinstance(x, _int) else 0)
-        return SymInt.mk(z3.ZeroExt(W - 8 * n, t), lo, hi)
+        return SymInt.mk(t, lo, hi)
 
     @staticmethod
     def to_bytes(x, length=1, byteorder="big", *, signed=False):
         if isinstance(x, SymInt):
             return x.to_bytes(length, byteorder, signed=signed)
         if isinstance(x, SymBool):
-            return SymInt.mk(*SymInt.coerce(x)).to_bytes(length, byteorder, signed=signed)
+            return SymInt.lift(x).to_bytes(length, byteorder, signed=signed)
         if isinstance(length, SymInt):
             length = length.concretise()
         return _int.to_bytes(x, length, byteorder, signed=signed)
@@ -151,8 +151,11 @@ class BytesShim(metaclass=_BytesMeta):
             if isinstance(x, SymInt):
                 x = x.concretise()
             return _bytes(x)
-        if hasattr(x, "__bytes__") and not isinstance(x, SymBytes):
-            return _bytes(x)
+        if hasattr(x, "__bytes__") and not isinstance(x, (SymBytes, _bytes, _bytearray)):
+            r = x.__bytes__()
+            if isinstance(r, SymBytes):
+                return r if not r.is_concrete() else _bytes(r.e)
+            return _bytes(r)
         els = _from_iterable(x)
         if els is None:
             return _bytes(x)
